@@ -181,7 +181,7 @@ func genCacoBuild(repo string) (string, error) {
 	}
 	var b strings.Builder
 	b.WriteString("(* Generated from /repo by gen/caco_build.go; do not edit. *)\n")
-	b.WriteString("From Coq Require Import List String.\nImport ListNotations.\nLocal Open Scope string_scope.\n\n")
+	b.WriteString("From Coq Require Import List String NArith.\nImport ListNotations.\nLocal Open Scope string_scope.\n\n")
 
 	// constants
 	consts, _ := p.consts()
@@ -214,6 +214,24 @@ func genCacoBuild(repo string) (string, error) {
 		}
 	}
 	fmt.Fprintf(&b, "Definition gen_max_errs : nat := %s.\n\n", maxErrs)
+
+	// newBuildCache: expire: <duration> (nanoseconds)
+	expire := "0 (* not found *)"
+	if fd := p.funcDecl("", "newBuildCache"); fd != nil && fd.Body != nil {
+		ast.Inspect(fd.Body, func(n ast.Node) bool {
+			kv, ok := n.(*ast.KeyValueExpr)
+			if !ok {
+				return true
+			}
+			if id, ok := kv.Key.(*ast.Ident); ok && id.Name == "expire" {
+				if v := evalConst(kv.Value, consts, 0); v != nil {
+					expire = v.ExactString()
+				}
+			}
+			return true
+		})
+	}
+	fmt.Fprintf(&b, "Definition gen_cache_expire_ns : N := %s.\n\n", expire)
 	emitSkeleton(&b, "errorlist_add", lx.cacoSkeleton(lx.funcDecl("ErrorList", "Add")))
 	emitSkeleton(&b, "errorlist_errs", lx.cacoSkeleton(lx.funcDecl("ErrorList", "Errs")))
 
@@ -249,6 +267,8 @@ func genCacoBuild(repo string) (string, error) {
 		{"buildCache", "put", "cache_put"},
 		{"buildCache", "get", "cache_get"},
 		{"buildCache", "remove", "cache_remove"},
+		{"", "newBuildCache", "newBuildCache"},
+		{"fileSet", "fileNodes", "fileSet_fileNodes"},
 		{"", "newFileSet", "newFileSet"},
 		{"fileSet", "meta", "fileSet_meta"},
 		{"fileSet", "build", "fileSet_build"},
